@@ -191,6 +191,12 @@ def substringX (s : String) (a : Float) (b : Option Float) : String :=
     | some b => pf ≥ ra && pf < ra + xround b
   String.ofList ((cs.zipIdx.filter fun (_, i) => keep (i + 1)).map (·.1))
 
+/-- the nodes whose string-value has not occurred earlier in the (document-ordered) list -/
+def distinctBy (d : Doc) (l : List Nat) : List Nat :=
+  (l.foldl (fun (acc : List Nat × List String) m =>
+    let sv := d.stringValue m
+    if acc.2.contains sv then acc else (acc.1 ++ [m], sv :: acc.2)) ([], [])).1
+
 structure Ctx where
   node : Nat
   pos : Nat
@@ -224,11 +230,36 @@ def callFn (d : Doc) (c : Ctx) (position last : Float) (f : String) (args : List
   | "local-name", [v] => (firstNode v).map fun o => .str ((o.map (nameOf d)).getD "")
   | "contains", [a, b] => .ok (.bool (((a.toStr d).splitOn (b.toStr d)).length > 1 || (b.toStr d) == ""))
   | "starts-with", [a, b] => .ok (.bool ((a.toStr d).startsWith (b.toStr d)))
+  | "substring-before", [a, b] =>
+    let x := a.toStr d; let y := b.toStr d
+    if y == "" then .ok (.str "") else
+    let parts := x.splitOn y
+    .ok (.str (if parts.length > 1 then parts.headD "" else ""))
+  | "substring-after", [a, b] =>
+    let x := a.toStr d; let y := b.toStr d
+    if y == "" then .ok (.str x) else
+    let parts := x.splitOn y
+    .ok (.str (if parts.length > 1 then y.intercalate parts.tail else ""))
   | "substring", [s, a] => .ok (.str (substringX (s.toStr d) (a.toNum d) none))
   | "substring", [s, a, b] => .ok (.str (substringX (s.toStr d) (a.toNum d) (some (b.toNum d))))
   | "normalize-space", [v] => .ok (.str (normalizeSpace (v.toStr d)))
   | "normalize-space", [] => .ok (.str (normalizeSpace (d.stringValue c.node)))
   | "translate", [s, a, b] => .ok (.str (translateStr (s.toStr d) (a.toStr d) (b.toStr d)))
+  -- EXSLT sets (http://exslt.org/sets) and xalan:distinct / xalan:nodeset, by their published definitions
+  | "set:difference", [.nodes a, .nodes b] => .ok (.nodes (a.filter fun m => !b.contains m))
+  | "set:intersection", [.nodes a, .nodes b] => .ok (.nodes (a.filter fun m => b.contains m))
+  | "set:has-same-node", [.nodes a, .nodes b] => .ok (.bool (a.any fun m => b.contains m))
+  | "set:distinct", [.nodes a] => .ok (.nodes (distinctBy d a))
+  | "x:distinct", [.nodes a] => .ok (.nodes (distinctBy d a))
+  | "x:nodeset", [.nodes a] => .ok (.nodes a)
+  | "set:leading", [.nodes a, .nodes b] =>
+    match b.head? with
+    | none => .ok (.nodes a)
+    | some f => .ok (.nodes (if a.contains f then a.filter (· < f) else []))
+  | "set:trailing", [.nodes a, .nodes b] =>
+    match b.head? with
+    | none => .ok (.nodes a)
+    | some f => .ok (.nodes (if a.contains f then a.filter (· > f) else []))
   | "floor", [v] => .ok (.num (v.toNum d).floor)
   | "ceiling", [v] => .ok (.num (v.toNum d).ceil)
   | "round", [v] => .ok (.num (xround (v.toNum d)))
